@@ -2,7 +2,6 @@ import Rawr.Generated.RustFns
 import Rawr.Model.Rays
 import Rawr.Model.Eval
 import Rawr.Model.MoveGen
-import Rawr.Model.TimeBudget
 /-!
 # The hand-written model agrees with the definitions REGENERATED from the Rust source
 
@@ -62,9 +61,5 @@ theorem agree_lineBetween_gen : @R.lineBetweenGen = @lineBetween := by
   funext a b; simp only [R.lineBetweenGen, lineBetween, agree_fromSquare]
 theorem agree_lineBetween_count : @R.lineBetweenCount = @lineBetween := by
   funext a b; simp only [R.lineBetweenCount, lineBetween, agree_fromSquare]
-
-/-- the clock arms of `should_stop` in search::root::root (`Time`, `Movetime`). -/
-theorem agree_timeBudget : @R.timeBudget = @timeBudget := rfl
-theorem agree_movetimeBudget : @R.movetimeBudget = @movetimeBudget := rfl
 
 end Rawr
